@@ -66,12 +66,12 @@ theorem delAggregator_eq (t : Table) (i : Nat) :
 
 /-- the search loop of `DelRoute`: index and element of the first route with the key; `toDelete` stays -1 when there is none -/
 theorem forRange_findKey (key : Bytes) (rs : List (Int × RouteI)) (i0 : Int) (r0 : RouteI) :
-    (forRange (ρ := Err) (fun (p : Int × RouteI) (s : Int × RouteI × Int) =>
+    (forRange (ρ := Err × Table) (fun (p : Int × RouteI) (s : Int × RouteI × Int) =>
         if (p.2.Key == key) = true then Res.pure (Step.brk (p.1, p.2, p.1)) else Res.pure (Step.next (p.1, p.2, s.2.2))) rs (i0, r0, -1)).1 = [] ∧
     match rs.find? (fun p => p.2.Key == key) with
-    | some p => (forRange (ρ := Err) (fun (p : Int × RouteI) (s : Int × RouteI × Int) =>
+    | some p => (forRange (ρ := Err × Table) (fun (p : Int × RouteI) (s : Int × RouteI × Int) =>
         if (p.2.Key == key) = true then Res.pure (Step.brk (p.1, p.2, p.1)) else Res.pure (Step.next (p.1, p.2, s.2.2))) rs (i0, r0, -1)).2 = Out.done (p.1, p.2, p.1)
-    | none => ∃ a b, (forRange (ρ := Err) (fun (p : Int × RouteI) (s : Int × RouteI × Int) =>
+    | none => ∃ a b, (forRange (ρ := Err × Table) (fun (p : Int × RouteI) (s : Int × RouteI × Int) =>
         if (p.2.Key == key) = true then Res.pure (Step.brk (p.1, p.2, p.1)) else Res.pure (Step.next (p.1, p.2, s.2.2))) rs (i0, r0, -1)).2 = Out.done (a, b, -1) := by
   induction rs generalizing i0 r0 with
   | nil => exact ⟨rfl, i0, r0, rfl⟩
@@ -100,7 +100,7 @@ theorem delRoute_eq (t : Table) (key : Bytes) :
   unfold Table.DelRoute
   have hk := forRange_findKey key (Lib.enum t.config.routes) default default
   simp only [] at hk ⊢
-  generalize hfr : forRange (ρ := Err) _ (Lib.enum t.config.routes) _ = fr at hk ⊢
+  generalize hfr : forRange (ρ := Err × Table) _ (Lib.enum t.config.routes) _ = fr at hk ⊢
   obtain ⟨tr, out⟩ := fr
   obtain ⟨h1, h2⟩ := hk
   simp only at h1; subst h1
